@@ -91,6 +91,13 @@ class Env:
             self.monitors[name] = m
         self.trainer = Obj(None, "trainer")
         self.trainer.fields.update(training=True, cells_={"cell0": self.cell})
+        # trainer-level defaults are DIFFERENT symbolic values from the per-cell state: a forward that reads self.<x>
+        # instead of state.<x> cannot satisfy the clauses
+        from pyvc.sym import SV
+
+        for k, v in state_fields.items():
+            if isinstance(v, SV) and v.is_real:
+                self.trainer.fields[k] = c.real("trainer_default_" + k)
         self.trainer.fields["__iter_items__"] = [(self.cell, self.state, self.monitors)]
 
     def captured(self, param="weight"):
